@@ -16,7 +16,7 @@ def check(run, views, tier):
         run.cfg = cfg
         F = crates["ipp"]
         n = rr.r_readexact(run, F)
-        run.floor("R-READEXACT", n, 8 if rr.async_on(F) else 4, "calls on the readers' source")
+        run.floor("R-READEXACT", n, 4 if rr.async_on(F) else 2, "calls on the readers' source")
         rr.r_stop_onlyexit(run, F)
         # "consumes exactly the bytes ... through the end-of-attributes tag": every value tag is followed by its name and value elements
         # (R-TOKEN), every tag byte is classified as the registry says (R-DISPATCH), and the parser cannot abort in its trace!() formatting
